@@ -39,7 +39,7 @@ def ended_streams(ops):
 class C06(Prop):
     id = "C06"
     thorough_rounds = 10   # thorough tier: this many independently seeded rounds of the random generators (duplicates dropped)
-    modules = ["H3.Props.C06"]
+    modules = ["H3.Props.C06", "H3.Lemmas.GenAgreeFrame", "H3.Lemmas.GenAgreeReq", "H3.Lemmas.GenAgreeCtl"]
     engines = ["adv"]
     design_ref = "DESIGN.md section 7, C06"
     level_text = ("Lean theorems: no step of the receive-path models (frame layer, request receive machine, uni-stream type "
@@ -54,7 +54,7 @@ class C06(Prop):
     rule = ("adversarial peer scripts: grammar-mutated and arbitrary bytes on request, control, QPACK and unknown streams, random "
             "chunking, FIN/RESET/STOP_SENDING/close/timeout injected at every step index of base scenarios, both roles, documented "
             "call patterns; non-trivial = at least one API call completed with a result other than no-task")
-    trusted = []
+    trusted = ["the decision tables of the receive paths (H3.Gen.FrameDispatch, ReqArms, FirstFrame, CtlArms, UniArms, FrameErrCodes) are re-read from the sources on this run and the models this property's theorems are about are proved to follow them (H3.Lemmas.GenAgreeFrame/GenAgreeReq/GenAgreeCtl, rebuilt on this run)"]
     assumptions = ["'pending forever' is judged at executor quiescence after the script ended what the call waits on (R-06)"]
 
     # ---- projection: the only observables are `panic` and calls left pending on something that has ended
